@@ -274,6 +274,7 @@ def one_fault(c: Committed, ctx, rel: str, role: str, kind: str, pos: int,
         raised, how = c.check_raises(also_writer=(role == "info" or
                                                   pos % 8 == 0))
         ctx.count("faults")
+        ctx.evaluated()
         ctx.count(f"faults:{role}:{kind}")
         if not raised:
             ctx.fail(
